@@ -90,6 +90,16 @@ def make_fa(case, **kw):
     from bob.learn.em import ISVMachine, JFAMachine
 
     ubm = make_gmm(case["ubm"])
+    if case.get("ubm_seeded"):
+        # the UBM is an ML machine that was warm-started from another GMM (GMMMachine(C, trainer="ml", ubm=seed)): it
+        # still carries that seed in its `ubm` attribute, but it is NOT a MAP machine - everything refers to ITS OWN
+        # parameters
+        seed_p = dict(case["ubm"], means=np.array(case["ubm"]["means"]) * 0.7 - 0.4,
+                      variances=np.array(case["ubm"]["variances"]) * 1.6)
+        m0 = GMMMachine(n_gaussians=int(case["ubm"]["C"]), trainer="ml", ubm=make_gmm(seed_p))
+        m0.variance_thresholds = ubm.variance_thresholds
+        m0.means, m0.variances, m0.weights = np.array(ubm.means), np.array(ubm.variances), np.array(ubm.weights)
+        ubm = m0
     first = ubm
     if case.get("swap_ubm"):
         # the machine is built on ANOTHER UBM of the same shape and given its final UBM afterwards through the
